@@ -32,6 +32,18 @@ class IntKeyed(dict, typing.Generic[_V]):
     """a dict subclass with ONE type parameter of its own"""
 
 
+class MK(type):
+    """a user metaclass: a method annotated MK accepts the classes whose metaclass it is"""
+
+
+class KM(metaclass=MK):
+    pass
+
+
+class KMsub(KM):
+    pass
+
+
 def tt(x):
     return tuple(tt(y) for y in x) if isinstance(x, list) else x
 
@@ -57,6 +69,8 @@ def build_t(T, W):
         return IntKeyed[build_t(T[1], W)]
     if k == "tuple":
         return tuple[tuple(build_t(x, W) for x in T[1:])]
+    if k in ("km", "kmsub"):
+        return KM if k == "km" else KMsub
     raise ValueError(T)
 
 
@@ -70,6 +84,8 @@ def build_ann(a, W):
         return type
     if k == "typeany":
         return type[typing.Any]
+    if k == "metak":
+        return MK
     if k == "type":
         return type[build_t(a[1], W)]
     if k == "union":
@@ -91,6 +107,10 @@ def tstr(T):
         return "type"
     if k == "typeany":
         return "type[Any]"
+    if k == "metak":
+        return "MK (a metaclass)"
+    if k in ("km", "kmsub"):
+        return {"km": "KM", "kmsub": "KMsub"}[k]
     if k == "inst":
         return f"K{T[1]}()" if T[1] >= 0 else "object()"
     if k == "bare":
@@ -110,6 +130,8 @@ def subT(S, T, W):
         S = ("obj",)
     if T[0] in ("obj", "any"):
         return z3.BoolVal(True)      # typing.Any counts as object, also as an argument of a generic
+    if S[0] in ("km", "kmsub"):
+        return z3.BoolVal(False)      # classes with a metaclass of their own: below object only
     if S[0] in ("bare", "intkeyed"):
         # a bare class (list, dict, a subclass) or a subclass origin with its own, different parameter list: never a
         # subtype of a parametrised generic with another number of arguments, nor of a harness class
@@ -137,6 +159,8 @@ def app(W):
             return z3.BoolVal(False)
         if ann[0] == "type":
             return subT(arg[1], ann[1], W) if arg[0] == "cls" else z3.BoolVal(False)
+        if ann[0] == "metak":
+            return z3.BoolVal(arg[0] == "cls" and arg[1][0] in ("km", "kmsub"))
         if ann[0] == "union":
             return z3.Or(f(ann[1], arg), f(ann[2], arg))
         raise ValueError(ann)
@@ -153,6 +177,8 @@ def le(W):
             return W.rel(a[1], b[1])
         if a[0] == "type" and b[0] == "type":
             return subT(a[1], b[1], W)
+        if a[0] == "metak":
+            return z3.BoolVal(b in (("metak",), ("type", ("obj",))))     # a metaclass is a subclass of type (= type[object])
         if a[0] == "union":
             return z3.And(f(a[1], b), f(a[2], b))
         if b[0] == "union":
@@ -162,6 +188,8 @@ def le(W):
 
 
 def make_world(ex, shape, real):
+    if shape.get("kind") == "punion":
+        return World(ex, shape["n"], nprio=0, real=real)
     M = len(shape["methods"])
     W = World(ex, shape["n"], nprio=M + 1, real=real)
     for m in range(M):          # the forwarding helper method outranks every method of the set
@@ -172,9 +200,44 @@ def make_world(ex, shape, real):
 _MS = {}
 
 
+_PU = MethodSet([dict(pos=[("x", ("obj",), False)]), dict(pos=[("x", ("obj",), False)])])
+
+
+def make_run_punion(W, shape):
+    """a union OBJECT (A | B, typing.Union[A, B], Optional[A]) passed as an argument: it is not a subtype of T unless every member is, so a
+    method on type[T] must not be entered with it when some member is not (the statement is silent on the other direction: either answer)"""
+    import typing
+
+    from ovld import Ovld
+
+    T = tt(shape["ann"])
+    a, b = shape["members"]
+    spelling = shape["spelling"]
+
+    def run(ctx):
+        hs, LOG, ns = _PU.instantiate(W)
+        hs[0].__annotations__ = {"x": type[build_t(T, W)]}
+        ov = Ovld()
+        ov.register(hs[0], priority=0)
+        ov.register(hs[1], priority=-1)
+        A, B = W.K[a], W.K[b]
+        passed = {"pipe": lambda: A | B, "typing": lambda: typing.Union[A, B], "optional": lambda: typing.Optional[A]}[spelling]()
+        out, res = outcome_of(lambda: ov.dispatch(passed), LOG)
+        members = [("K", a)] + ([("K", b)] if spelling != "optional" else [])
+        allsub = z3.And([subT(m, T, W) for m in members]) if spelling != "optional" else z3.BoolVal(False)   # (NoneType is never below a harness class)
+        post = z3.And(z3.BoolVal(out in (("ran", 0), ("ran", 1))), z3.Implies(z3.BoolVal(out == ("ran", 0)), allsub))
+        info = dict(method=f"type[{tstr(T)}]", passed={"pipe": f"K{a} | K{b}", "typing": f"typing.Union[K{a}, K{b}]", "optional": f"typing.Optional[K{a}]"}[spelling],
+                    outcome=list(out))
+        return Verdict(post, (), info, [str(out)], nontrivial=out == ("ran", 0))
+
+    return run
+
+
 def make_run(W, shape, known_active=None):
     from ovld import Ovld
 
+    if shape.get("kind") == "punion":
+        return make_run_punion(W, shape)
     if known_active is None:
         known_active = runner.active_known_ids(PID)
     methods = [[tt(a) for a in m] for m in shape["methods"]]
@@ -203,13 +266,27 @@ def make_run(W, shape, known_active=None):
         PASSED = [None]
         hs, LOG, ns = ms.instantiate(W, extra={"PASSED": PASSED})
         ov = Ovld()
+        via_recurse = npos == 1 and not kwonly and args[0][0] == "cls" and not any(a[0] == ("K", 2) for a in sup)
+        late = bool(shape.get("late")) and via_recurse
         for m in range(M):
             hs[m].__annotations__ = {nm: build_ann(a, W) for nm, a in zip("xy", methods[m])}
-            ov.register(hs[m], priority=W.prio[m])
-        via_recurse = npos == 1 and not kwonly and args[0][0] == "cls" and not any(a[0] == ("K", 2) for a in sup)
+        typed = [m for m in range(M) if methods[m][0][0] not in ("obj", "K")]
+        for m in range(M):
+            if not (late and m in typed):
+                ov.register(hs[m], priority=W.prio[m])
         if via_recurse:
             hs[M].__annotations__ = {"x": W.K[2]}
             ov.register(hs[M], priority=W.prio[M])
+        if late:
+            # the function is used once (built; the helper's recurse call rewritten) BEFORE its type[...] methods are registered
+            PASSED[0] = 0
+            try:
+                ov.dispatch(W.inst[2])
+            except TypeError:
+                pass
+            del LOG[:]
+            for m in typed:
+                ov.register(hs[m], priority=W.prio[m])
         actual = []
         for a in args:
             if a[0] == "inst":
@@ -262,13 +339,13 @@ def gen_shapes(tier, seed):
     A0 = [("obj",), K0, K1, ("type", ("obj",)), ("baretype",), ("type", K0), ("type", K1),
           ("type", ("list", K0)), ("type", ("list", K1)), ("type", ("list", ("obj",))),
           ("type", ("dict", K0, K1)), ("type", ("dict", K1, K0)), ("type", ("list", ("list", K0))),
-          ("type", ("tuple", K0, K1)), ("type", ("tuple", K0)), ("typeany",), ("type", ("list", ("any",))), ("type", ("dict", K0, ("any",)))]
+          ("type", ("tuple", K0, K1)), ("type", ("tuple", K0)), ("typeany",), ("type", ("list", ("any",))), ("type", ("dict", K0, ("any",))), ("metak",)]
     A1 = [K0, K1, ("obj",)]
     P0 = [("cls", K2), ("cls", K0), ("cls", ("list", K2)), ("cls", ("list", K0)), ("cls", ("list", ("list", K2))),
           ("cls", ("dict", K2, K2)), ("cls", ("dict", K0, K2)), ("cls", ("mylist", K2)), ("cls", ("any",)),
           ("inst", 2), ("inst", -1), ("cls", ("obj",)), ("cls", ("tuple", K2)), ("cls", ("tuple", K2, K2)),
           ("cls", ("tuple", K0, K2)), ("cls", ("bare", "mylist")), ("cls", ("bare", "list")), ("cls", ("bare", "dict")),
-          ("cls", ("bare", "intkeyed")), ("cls", ("intkeyed", K2))]
+          ("cls", ("bare", "intkeyed")), ("cls", ("intkeyed", K2)), ("cls", ("km",)), ("cls", ("kmsub",))]
     P1 = [("inst", 2), ("inst", 0)]
     one2 = [dict(n=n, methods=[[a], [b]], args=[p]) for a in A0 for b in A0 for p in P0]
     one3 = [dict(n=n, methods=[[a], [b], [c]], args=[p]) for a in A0 for b in A0 for c in A0 for p in P0]
@@ -277,16 +354,20 @@ def gen_shapes(tier, seed):
     # catch-all method (the order of unions among themselves is C12's subject)
     UN = [("union", ("type", K0), K1), ("union", K1, ("type", K0)), ("union", ("type", ("list", K0)), K1), ("union", ("type", K0), ("type", ("list", K1)))]
     uni = [dict(n=n, methods=[[u], [("obj",)]], args=[p]) for u in UN for p in P0 + [("inst", 1), ("inst", 0)]]
+    pun = [dict(n=n, kind="punion", ann=T, members=[a, b], spelling=sp) for T in (K0, K1, ("list", K0)) for a in range(n) for b in range(n) if a != b
+           for sp in ("pipe", "typing", "optional")]
+    late2 = [dict(sh, late=True) for sh in one2 if sh["args"][0][0] == "cls"]
+    rng.shuffle(late2)
     kw2 = [dict(sh, kwonly=True) for sh in one2]
-    total = len(one2) + len(one3) + len(two) + len(kw2) + len(uni)
+    total = len(one2) + len(one3) + len(two) + len(kw2) + len(uni) + len(late2) + len(pun)
     rng.shuffle(kw2)
     rng.shuffle(one2)
     rng.shuffle(one3)
     rng.shuffle(two)
     if tier == "quick":
-        shapes = one2[:700] + one3[:500] + two[:400] + kw2[:300] + uni
+        shapes = one2[:700] + one3[:500] + two[:400] + kw2[:300] + uni + late2[:250] + pun
     else:
-        shapes = one2 + one3[:8000] + two[:8000] + kw2 + uni
+        shapes = one2 + one3[:8000] + two[:8000] + kw2 + uni + late2 + pun
     return shapes, total, True
 
 
@@ -307,9 +388,9 @@ def main(tier, seed):
     results = runner.pmap("props.c14", "explore_shape", shapes, kw, chunksize=8)
     return runner.finish(
         PID, tier, seed, t0, results,
-        bounds=dict(classes=3, methods="2-3", positions="1-2 (type position + plain position); the type-valued parameter positional or keyword-only",
+        bounds=dict(classes=3, methods="2-3", positions="1-2 (type position + plain position); the type-valued parameter positional or keyword-only; a family registering the type[...] methods after the function's first use",
                     annotations="object, Ki, type, type[object], type[Ki], type[list[Ki]], type[list[object]], type[dict[Ki,Kj]], type[list[list[Ki]]], type[tuple[Ki]], type[tuple[Ki,Kj]]",
-                    passed="Ki, list[Ki], list[list[Ki]], dict[Ki,Kj], tuple[Ki], tuple[Ki,Kj], MyList[Ki] (list subclass origin), typing.Any, object, instances",
+                    passed="union objects Ki | Kj / typing.Union / Optional (safety direction only); Ki, list[Ki], list[list[Ki]], dict[Ki,Kj], tuple[Ki], tuple[Ki,Kj], MyList[Ki] (list subclass origin), typing.Any, object, instances",
                     priorities="unbounded integers (symbolic)", hierarchy="every partial order on 3 classes (symbolic)"),
         rule="one state = one (method set, passed objects) x class of (hierarchy, priorities); non-trivial = >=2 methods applicable",
         stubs=["SymMeta classes", "SymInt priorities"],
